@@ -23,7 +23,10 @@ from rs2v_kernels import (Untranslatable, Parser, Source, find_fn, tokenize, mat
 
 ERRORS = {"InvalidPType": "EInvalidPType", "InvalidPlusPType": "EInvalidPlusPType", "PictureFormatInvalid": "EPictureFormatInvalid",
           "InvalidBitstream": "EInvalidBitstream", "UnimplementedDecoding": "EUnimplemented", "InternalDecoderError": "EInternal",
-          "MiddleOfBitstream": "EMiddleOfBitstream", "PictureFormatMissing": "EPictureFormatMissing"}
+          "MiddleOfBitstream": "EMiddleOfBitstream", "PictureFormatMissing": "EPictureFormatMissing",
+          "InvalidMacroblockHeader": "EInvalidMacroblockHeader", "InvalidMacroblockCodedBits": "EInvalidMacroblockCodedBits",
+          "InvalidMvd": "EInvalidMvd", "InvalidGobHeader": "EInvalidGobHeader", "InvalidIntraDc": "EInvalidIntraDc",
+          "InvalidShortCoefficient": "EInvalidShortCoefficient", "InvalidLongCoefficient": "EInvalidLongCoefficient"}
 
 # bit-flag types: integer-valued; constants of PictureOption are the model's names (their values are bridged in BridgeTables)
 FLAGS = {"PictureOption": None, "PlusPTypeFollower": {}, "SliceSubmode": {}, "ReferencePictureSelectionMode": {}}
@@ -38,8 +41,20 @@ ENUMS = {
                          "Par40_33": "Par40_33", "Reserved": "ParReserved", "Extended": "ParExtended"},
     "MotionVectorRange": {"Extended": "MvExtended", "Unlimited": "MvUnlimited"},
     "BPictureQuantizer": {"Five": "5", "Six": "6", "Seven": "7", "Eight": "8"},
+    "MacroblockType": {"Inter": "Inter", "InterQ": "InterQ", "Inter4V": "Inter4V", "Intra": "Intra", "IntraQ": "IntraQ", "Inter4Vq": "Inter4Vq"},
+    "BlockPatternEntry": {"Stuffing": "BpStuffing", "Invalid": "BpInvalid", "Valid": "BpValid"},
+    "Macroblock": {"Uncoded": "MbUncoded", "Stuffing": "MbStuffing", "Coded": "MbCoded"},
 }
-COQ_OF_TYPE = {"SourceFormat": "source_format", "PictureTypeCode": "ptype_code", "PixelAspectRatio": "par_t",
+# methods of enums that the model has as functions of the same meaning (their Rust definitions are translated and bridged too)
+ENUM_METHODS = {("MacroblockType", "is_inter"): "mb_is_inter", ("MacroblockType", "is_intra"): "mb_is_intra",
+                ("MacroblockType", "has_fourvec"): "mb_has_fourvec", ("MacroblockType", "has_quantizer"): "mb_has_quantizer",
+                ("PictureTypeCode", "is_any_pbframe"): "is_any_pbframe"}
+# VLC tables: the model's table of the same (lower-case) name, regenerated and bridged in BridgeTables; type of a leaf
+VLC_TABLES = {"MCBPC_I_TABLE": ("mcbpc_i_table", "BlockPatternEntry"), "MCBPC_P_TABLE": ("mcbpc_p_table", "BlockPatternEntry"),
+              "MODB_TABLE": ("modb_table", ("tup", ("bool", "bool"))), "CBPY_TABLE_INTRA": ("cbpy_table_intra", ("opt", ("list", "bool"))),
+              "MVD_TABLE": ("mvd_table", ("opt", "HalfPel"))}
+COQ_OF_TYPE = {"MacroblockType": "mbtype", "BlockPatternEntry": "bpe", "Macroblock": "macroblock", "HalfPel": "Z", "MotionVector": "(Z * Z)", "CodedBlockPattern": "cbp",
+               "SourceFormat": "source_format", "PictureTypeCode": "ptype_code", "PixelAspectRatio": "par_t",
                "MotionVectorRange": "mvrange", "BPictureQuantizer": "Z"}
 
 
@@ -66,7 +81,7 @@ class Defs:
     """struct fields, enum payloads and bit-flag constants read from the Rust sources"""
     def __init__(self, repo):
         self.structs, self.payload, self.flagvals = {}, {}, {}
-        for rel in ("h263/src/types.rs", "h263/src/parser/picture.rs", "h263/src/decoder/types.rs"):
+        for rel in ("h263/src/types.rs", "h263/src/parser/picture.rs", "h263/src/decoder/types.rs", "h263/src/parser/macroblock.rs"):
             try:
                 toks = Source(repo, rel).toks
             except Untranslatable:
@@ -168,6 +183,11 @@ def norm(t):
         return ("vec", norm(t[2][0]))
     if t[0] == "gen" and t[1] == "H263Reader":
         return "reader"
+    if t[0] == "arr":
+        el = norm(t[1])
+        if el == "MotionVector" and t[2] is not None and t[2][0] == "int":
+            return ("mvarr", t[2][1])
+        return ("list", el)
     raise Untranslatable("type %r" % (t,))
 
 
@@ -331,6 +351,17 @@ class PEmitter:
                 return self.expr(e[2], env, k, want)
             if op == "!":
                 return self.expr(e[2], env, lambda a, t, env: k("(negb %s)" % a, "bool", env) if t == "bool" else self.bad("bitwise not"), "bool")
+            if op == "-":
+                inner = e[2]
+                while inner[0] == "paren":
+                    inner = inner[1]
+                if inner[0] == "int" and inner[2] is None:
+                    w = resolve(want)
+                    return k(zlit(-inner[1]), w if (is_int(w) or isinstance(w, TVar)) else "i32", env)
+                def neg(a, t, env):
+                    v = self.fresh("t")
+                    return "let* %s := neg_c %s %s in\n  %s" % (v, self.cty(t), a, k(v, t, env))
+                return self.expr(e[2], env, neg, want)
             raise Untranslatable("unary %s" % op)
         if kind == "ref":
             return self.expr(e[1], env, k, want)
@@ -346,6 +377,8 @@ class PEmitter:
             return self.call(e, env, k, want)
         if kind == "struct":
             return self.struct(e, env, k)
+        if kind == "array":
+            return self.array_lit(e[1], 0, [], env, k)
         if kind == "if":
             return self.if_expr(e, env, k, want)
         if kind == "match":
@@ -373,6 +406,19 @@ class PEmitter:
         w = resolve(want)
         wi = w[1][i] if isinstance(w, tuple) and w[0] == "tup" and i < len(w[1]) else None
         return self.expr(items[i], env, lambda a, t, env: self.tuple_(items, i + 1, acc + [(a, t)], env, k, want), wi)
+
+    def array_lit(self, items, i, acc, env, k):
+        if i == len(items):
+            ts = [resolve(t) for _, t in acc]
+            if all(t == "bool" for t in ts):
+                return k("[" + "; ".join(a for a, _ in acc) + "]", ("list", "bool"), env)
+            if all(t == "MotionVector" for t in ts):
+                tup = acc[0][0]
+                for a, _ in acc[1:]:
+                    tup = "(%s, %s)" % (tup, a)
+                return k(tup, ("mvarr", len(acc)), env)
+            raise Untranslatable("array literal of %r" % (ts,))
+        return self.expr(items[i], env, lambda a, t, env: self.array_lit(items, i + 1, acc + [(a, t)], env, k))
 
     def path(self, e, env, k, want):
         segs = e[1]
@@ -487,6 +533,18 @@ class PEmitter:
             return ("n", args[0], lambda n: "skip_bits %s %s" % (n, r), "unit", "r")
         if name == "recognize_start_code" and len(args) == 1:
             return ("n", args[0], lambda n: "recognize_start_code %s %s" % (n, r), ("opt", "u32"), "v")
+        if name == "read_umv" and not args:
+            return (None, None, lambda n: "read_umv %s" % r, "HalfPel", "vr")
+        if name == "read_vlc" and len(args) == 1:
+            t = args[0]
+            while t[0] in ("ref", "paren"):
+                t = t[1]
+            if t[0] == "index" and t[2][0] == "range":
+                t = t[1]
+            if t[0] == "var" and t[1] in VLC_TABLES:
+                tab, ty = VLC_TABLES[t[1]]
+                return (None, None, lambda n: "read_vlc %s %s" % (tab, r), ty, "vr")
+            raise Untranslatable("read_vlc on %r" % (t,))
         raise Untranslatable("reader method .%s()" % name)
 
     def try_(self, inner, env, k, want):
@@ -549,6 +607,8 @@ class PEmitter:
             return self.expr(args[0], env, lambda a, t, env: k("(Some %s)" % a, ("opt", t), env), w[1] if isinstance(w, tuple) and w[0] == "opt" else None)
         if f[0] == "var" and f[1] in ("Ok", "Err"):
             raise Untranslatable("Result value outside return position")
+        if f[0] == "path" and f[1] == ["HalfPel", "from"] and len(args) == 1:
+            return self.expr(args[0], env, lambda a, t, env: k(a, "HalfPel", env) if resolve(t) == "HalfPel" else self.bad("HalfPel::from(%r)" % (t,)))
         if f[0] == "path" and len(f[1]) == 2:
             ty, name = f[1]
             if ty in FLAGS and name == "empty" and not args:
@@ -581,7 +641,7 @@ class PEmitter:
 
     def struct(self, e, env, k):
         segs, fields = e[1], e[2]
-        if len(segs) == 2 and segs[0] in ENUMS and segs[1] in ENUMS[segs[0]]:
+        if len(segs) == 2 and segs[0] in ENUMS and segs[1] in ENUMS[segs[0]] and segs != ["Macroblock", "Coded"]:
             pl = self.d.payload.get((segs[0], segs[1]))
             if not pl or not isinstance(pl[0], tuple) or [f for f, _ in pl] != [f for f, _ in fields]:
                 raise Untranslatable("fields of %s::%s" % tuple(segs))
@@ -591,7 +651,28 @@ class PEmitter:
                 ft = norm(pl[i][1])
                 return self.expr(fields[i][1], env, lambda a, t, env: (self.unify(t, ft, "field"), go(i + 1, acc + [a], env))[1], ft)
             return go(0, [], env)
+        if segs == ["Macroblock", "Coded"]:
+            given = dict(fields)
+            order = ["mb_type", "coded_block_pattern", "d_quantizer", "motion_vector", "addl_motion_vectors"]
+            ignored = {"coded_block_pattern_b", "motion_vectors_b"}      # parsed for their bits only: the model drops them
+            if set(given) != set(order) | ignored:
+                raise Untranslatable("fields of Macroblock::Coded")
+            def go(i, acc, env):
+                if i == len(order):
+                    return k("(MbCoded %s)" % " ".join(acc), "Macroblock", env)
+                return self.expr(given[order[i]], env, lambda a, t, env: go(i + 1, acc + [a], env))
+            return go(0, [], env)
         name = segs[-1]
+        if name == "CodedBlockPattern":
+            given = dict(fields)
+            order = ["codes_luma", "codes_chroma_b", "codes_chroma_r"]
+            if set(given) != set(order):
+                raise Untranslatable("fields of CodedBlockPattern")
+            def go(i, acc, env):
+                if i == len(order):
+                    return k("(mkCbp %s)" % " ".join(acc), "CodedBlockPattern", env)
+                return self.expr(given[order[i]], env, lambda a, t, env: go(i + 1, acc + [a], env))
+            return go(0, [], env)
         if name not in self.d.structs:
             raise Untranslatable("struct %s" % name)
         decl = self.d.structs[name]
@@ -657,8 +738,17 @@ class PEmitter:
                     return k("(match %s with Some %s => %s | None => %s end)" % (a, v, body, d), holder["t"], env)
                 return self.expr(dflt, env, lambda d, td, env: k("(match %s with Some %s => %s | None => %s end)" % (a, v, body, d), holder["t"], env), holder["t"])
             return self.expr(recv[1], env, after)
+        if name == "into" and not args:
+            def into(a, t, env):
+                t = resolve(t)
+                if t == ("tup", ("HalfPel", "HalfPel")):
+                    return k(a, "MotionVector", env)
+                raise Untranslatable(".into() on %r" % (t,))
+            return self.expr(recv, env, into)
         def after(a, t, env):
             t = resolve(t)
+            if isinstance(t, str) and (t, name) in ENUM_METHODS and not args:
+                return k("(%s %s)" % (ENUM_METHODS[(t, name)], a), "bool", env)
             if name == "contains" and len(args) == 1:
                 c = args[0]
                 while c[0] in ("ref", "paren"):
@@ -785,6 +875,15 @@ class PEmitter:
             for nm in names[1:]:
                 cp = "(%s, %s)" % (cp, nm)
             return "let '%s := %s in\n  %s" % (cp, a, rest(env2))
+        if pat[0] == "parray" and isinstance(t, tuple) and t[0] == "list" and all(p[0] in ("pid", "pwild") for p in pat[1]):
+            names, env2 = [], dict(env)
+            for p in pat[1]:
+                if p[0] == "pid":
+                    v = self.fresh(p[1]); env2[p[1]] = (v, t[1]); names.append(v)
+                else:
+                    names.append("_")
+            # a fixed-size array in the code, a list in the model: any other length cannot occur
+            return "match %s with\n  | [%s] =>\n  %s\n  | _ => Panic PAssert\n  end" % (a, "; ".join(names), rest(env2))
         raise Untranslatable("pattern %r" % (pat,))
 
     def join(self, branches_nodes, env, rest_with_value):
@@ -1023,6 +1122,8 @@ class PEmitter:
             t = resolve(t)
             if isinstance(t, tuple) and t[0] == "opt":
                 return self.match_option(a, t, arms, env, k, want)
+            if isinstance(t, str) and t in ENUMS:
+                return self.match_enum(a, t, arms, env, k, want)
             if not (is_int(t) or isinstance(t, TVar)):
                 raise Untranslatable("match on %r" % (t,))
             if any(g is not None for _, g, _ in arms):
@@ -1093,6 +1194,88 @@ class PEmitter:
             return "let %s := %s in\n  %s" % (sv, a, chain)
         return self.expr(scrut, env, on_scrut)
 
+    def enum_pattern(self, p, ty, env):
+        """Coq pattern text and the environment extended with the variables it binds"""
+        if p[0] == "pwild":
+            return "_", env
+        if p[0] == "por":
+            parts = []
+            for q in p[1]:
+                txt, e2 = self.enum_pattern(q, ty, env)
+                if e2 is not env:
+                    raise Untranslatable("bindings inside an or-pattern")
+                parts.append(txt)
+            return " | ".join(parts), env
+        if p[0] in ("ppath", "pctor"):
+            segs = p[1]
+            if len(segs) != 2 or segs[0] not in (ty, "Self") or segs[1] not in ENUMS[ty]:
+                raise Untranslatable("pattern %r on %s" % (segs, ty))
+            ctor = ENUMS[ty][segs[1]]
+            pl = self.d.payload.get((ty, segs[1]), [])
+            if p[0] == "ppath":
+                if pl:
+                    raise Untranslatable("constructor pattern without its payload")
+                return ctor, env
+            if len(pl) != len(p[2]):
+                raise Untranslatable("payload pattern arity")
+            env2, names = dict(env), []
+            for q, pt in zip(p[2], pl):
+                if q[0] == "pid":
+                    v = self.fresh(q[1]); env2[q[1]] = (v, norm(pt)); names.append(v)
+                elif q[0] == "pwild":
+                    names.append("_")
+                else:
+                    raise Untranslatable("nested payload pattern")
+            return "(%s %s)" % (ctor, " ".join(names)), env2
+        raise Untranslatable("pattern %r on an enum" % (p,))
+
+    def match_enum(self, a, ty, arms, env, k, want):
+        if any(g is not None for _, g, _ in arms):
+            raise Untranslatable("match guard")
+        pats = [self.enum_pattern(p, ty, env) for p, _, _ in arms]
+        bodies = [b for _, _, b in arms]
+        is_ret = lambda b: b[0] == "return"
+        assemble = lambda codes: "match %s with\n  %s\n  end" % (a, "\n  ".join("| %s => (%s)" % (pt, c) for (pt, _), c in zip(pats, codes)))
+        effects = any(self.has_return(b) or self.assigned(b, set()) for b in bodies if not is_ret(b))
+        if not any(self.has_exit(b) for b in bodies) and not effects:
+            h, codes = {}, []
+            for (pt, env2), b in zip(pats, bodies):
+                def cap(a2, t2, env3):
+                    h["t"] = self.merge(h.get("t"), t2)
+                    return a2
+                codes.append(self.expr(b, env2, cap, want if want is not None else h.get("t")))
+            return k("(%s)" % assemble(codes).replace("\n  ", " "), h["t"], env)
+        if not any(self.has_exit(b) for b in bodies):
+            kname, vars_, params, envk = self.join(bodies, env, None)
+            if "$reader" not in vars_:
+                vars_ = vars_ + ["$reader"]; rp = self.fresh("reader"); params = params + [rp]; envk["$reader"] = (rp, "reader")
+            order = [v for v in vars_ if v != "$reader"] + ["$reader"]
+            pn = dict(zip(vars_, params))
+            vp = self.fresh("x")
+            h = {}
+            def tupv(a2, t2, env2):
+                h["t"] = self.merge(h.get("t"), t2)
+                return "Ok (%s)" % ", ".join([a2] + [env2[v][0] for v in order])
+            codes = [(self.block(b, env2, tupv, want if want is not None else h.get("t")) if b[0] == "block" else self.expr(b, env2, tupv, want if want is not None else h.get("t")))
+                     for (pt, env2), b in zip(pats, bodies)]
+            return "let* (%s) := (%s) in\n  %s" % (", ".join([vp] + [pn[v] for v in order]), assemble(codes), k(vp, h.get("t"), envk))
+        kname, vars_, params, envk = self.join([b for b in bodies if not is_ret(b)], env, None)
+        vp = self.fresh("x")
+        h = {}
+        def call(a2, t2, env2):
+            h["t"] = self.merge(h.get("t"), t2)
+            return "@CALL:%s@%s@%s@" % (kname, a2, "|".join(env2[v][0] for v in vars_))
+        codes = []
+        for (pt, env2), b in zip(pats, bodies):
+            if is_ret(b):
+                codes.append(self.ret(b[1], env2))
+            else:
+                codes.append(self.block(b, env2, call, want if want is not None else h.get("t")) if b[0] == "block" else self.expr(b, env2, call, want if want is not None else h.get("t")))
+        body = k(vp, h.get("t"), envk)
+        callf = self.lift(kname, [(vp, h.get("t"))], vars_, params, env, body)
+        fix = self.fixer(kname, callf, vars_)
+        return assemble([fix(c) for c in codes])
+
     def match_option(self, a, t, arms, env, k, want):
         some = [x for x in arms if x[0][0] == "pctor" and x[0][1] == ["Some"]]
         none = [x for x in arms if (x[0][0] == "pid" and x[0][1] == "None") or (x[0][0] == "ppath" and x[0][1] == ["None"])]
@@ -1125,9 +1308,14 @@ class PEmitter:
         sp = some[0][0][2][0]
         sv = self.fresh("s")
         def some_body(env):
+            if some[0][2][0] == "return":
+                return self.ret(some[0][2][1], env)
             return self.block(some[0][2], env, call, want) if some[0][2][0] == "block" else self.expr(some[0][2], env, call, want)
         s_code = self.bind_pat(sp, sv, t[1], env, some_body)
-        n_code = self.block(none[0][2], env, call, want if want is not None else h.get("t")) if none[0][2][0] == "block" else self.expr(none[0][2], env, call, want if want is not None else h.get("t"))
+        if none[0][2][0] == "return":
+            n_code = self.ret(none[0][2][1], env)
+        else:
+            n_code = self.block(none[0][2], env, call, want if want is not None else h.get("t")) if none[0][2][0] == "block" else self.expr(none[0][2], env, call, want if want is not None else h.get("t"))
         body = k(vp, h.get("t"), envk)
         callf = self.lift(kname, [(vp, h.get("t"))], vars_, params, env, body)
         fix = self.fixer(kname, callf, vars_)
@@ -1279,6 +1467,12 @@ def coq_of(t, defs):
         return "(" + " * ".join(coq_of(x, defs) for x in t[1]) + ")"
     if t[0] == "structval":
         return coq_of(t[1], defs)
+    if t[0] == "list":
+        return "(list %s)" % coq_of(t[1], defs)
+    if t[0] == "mvarr":
+        return "(" + " * ".join(["(Z * Z)"] * t[1]) + ")"
+    if t[0] == "vec":
+        return "(list Z)"
     raise Untranslatable("no Coq type for %r" % (t,))
 
 
@@ -1291,6 +1485,8 @@ def coq_param_type(t):
         return "bool"
     if isinstance(t, tuple) and t[0] == "opt" and t[1] == "Picture":
         return "option picture"
+    if t == "Picture":
+        return "picture"
     raise Untranslatable("parameter type %r" % (t,))
 
 
@@ -1364,62 +1560,75 @@ HEADER = ("(* GENERATED by tools/rs2v.py (rs2v_parser) from h263/src/parser/pict
           "From H263V Require Import base.Prelude base.Checked model.Types model.Tables model.Reader model.Header.\n"
           "Create HintDb pgen.\n\n")
 
-UNION = {"decode_picture"}
+UNION = {"decode_picture", "decode_gob"}
 FUNCTIONS = ["decode_ptype", "decode_plusptype", "decode_sorenson_ptype", "decode_cpm_and_psbi", "decode_cpfmt", "decode_cpcfc",
              "decode_uui", "decode_sss", "decode_elnum_rlnum", "decode_rpsmf", "decode_trpi", "decode_bcm", "decode_rprp", "decode_trb", "decode_dbquant",
-             "decode_picture"]
+             "decode_picture", "decode_cbpb", "decode_dquant", "decode_motion_vector", "decode_macroblock"]
+FILES = {"decode_cbpb": "h263/src/parser/macroblock.rs", "decode_dquant": "h263/src/parser/macroblock.rs",
+         "decode_motion_vector": "h263/src/parser/macroblock.rs", "decode_macroblock": "h263/src/parser/macroblock.rs"}
+
+
+MB_FUNCTIONS = ["decode_cbpb", "decode_dquant", "decode_motion_vector", "decode_macroblock", "decode_gob"]
+OTHER_FILE = {"decode_gob": "h263/src/parser/gob.rs"}
 
 
 def gen_parser(repo, status, write):
-    body = HEADER
-    try:
-        src = Source(repo, "h263/src/parser/picture.rs")
-        defs = Defs(repo)
-        aliases = find_aliases(src.toks)
-        aliases.setdefault("Result", None)
-    except Untranslatable as e:
-        for f in FUNCTIONS:
-            status["parser.p_" + f] = "untranslatable: %s" % e
-        write("GenPHeader.v", body)
-        return
-    aliases = {k: v for k, v in aliases.items() if v is not None}
     known = {}
-    # lazy_static constants: `static ref NAME: T = EXPR;`
+    _gen_group(repo, status, write, "GenPHeader.v", "h263/src/parser/picture.rs", [f for f in FUNCTIONS if f not in MB_FUNCTIONS], known, HEADER, statics=True)
+    _gen_group(repo, status, write, "GenPMacroblock.v", "h263/src/parser/macroblock.rs", MB_FUNCTIONS, {},
+               HEADER.replace("h263/src/parser/picture.rs", "h263/src/parser/macroblock.rs").replace("picture-header field decoders", "macroblock-layer header decoders")
+                     .replace("model.Header.\n", "model.Header model.Syntax.\n").replace("Create HintDb pgen.", "Create HintDb pgenmb."),
+               hintdb="pgenmb")
+
+
+def _gen_group(repo, status, write, fname, rel, functions, known, header, statics=False, hintdb="pgen"):
+    body = header
+    try:
+        src = Source(repo, rel)
+        defs = Defs(repo)
+        aliases = {k: v for k, v in find_aliases(src.toks).items() if v is not None}
+    except Untranslatable as e:
+        for f in functions:
+            status["parser.p_" + f] = "untranslatable: %s" % e
+        write(fname, body)
+        return
     toks = src.toks
-    for i in range(len(toks) - 5):
-        if toks[i] == ("id", "static") and toks[i + 1] == ("id", "ref") and toks[i + 3] == ("op", ":"):
-            name = toks[i + 2][1]
-            key = "parser.p_" + name
-            try:
-                p = Parser(toks)
-                p.i = i + 4
-                ty = norm(p.ty())
-                p.expect("=")
-                e = p.expr()
-                em = PEmitter(defs, known, aliases)
-                h = {}
-                def cap(a, t, env):
-                    h["a"] = a
-                    return ""
-                em.expr(e, {}, cap, ty)
-                body += "Definition p_%s : Z := %s.\n\n" % (name, h["a"])
-                known[name] = ("static", "p_" + name, ty)
-                status[key] = "ok"
-            except Untranslatable as ex:
-                status[key] = "untranslatable: %s" % ex
-    for f in FUNCTIONS:
+    if statics:
+        for i in range(len(toks) - 5):
+            if toks[i] == ("id", "static") and toks[i + 1] == ("id", "ref") and toks[i + 3] == ("op", ":"):
+                name = toks[i + 2][1]
+                key = "parser.p_" + name
+                try:
+                    p = Parser(toks)
+                    p.i = i + 4
+                    ty = norm(p.ty())
+                    p.expect("=")
+                    e = p.expr()
+                    em = PEmitter(defs, known, aliases)
+                    h = {}
+                    def cap(a, t, env):
+                        h["a"] = a
+                        return ""
+                    em.expr(e, {}, cap, ty)
+                    body += "Definition p_%s : Z := %s.\n\n" % (name, h["a"])
+                    known[name] = ("static", "p_" + name, ty)
+                    status[key] = "ok"
+                except Untranslatable as ex:
+                    status[key] = "untranslatable: %s" % ex
+    for f in functions:
         key = "parser.p_" + f
         try:
-            text, sig = translate_parser_fn(src, defs, f, "p_" + f, known, aliases, union=(f in UNION))
+            fsrc = src if f not in OTHER_FILE else Source(repo, OTHER_FILE[f])
+            text, sig = translate_parser_fn(fsrc, defs, f, "p_" + f, known, aliases, union=(f in UNION))
             known[f] = sig
-            body += text + "\n"
+            body += text.replace(": pgen.", ": %s." % hintdb) + "\n"
             status[key] = "ok"
         except Untranslatable as e:
             body += "(* p_%s: untranslatable: %s *)\n\n" % (f, str(e).replace("*)", "* )"))
             status[key] = "untranslatable: %s" % e
         except RecursionError:
             status[key] = "untranslatable: expression too deep"
-    write("GenPHeader.v", body)
+    write(fname, body)
 
 
 if __name__ == "__main__":
